@@ -323,6 +323,7 @@ Section Sem.
                               (set_nth i (mkThread MNone (rd f (abs_mem (mkCfg m ths) f) (loc L t)) k) (map (fin_thread m) ths))).
         { unfold Locks.abs. cbn [thr cmem]. rewrite AM', map_set_nth, AMf.
           rewrite (fin_thread_none m (mkThread MNone (rd f (m f) (loc L t)) k)) by reflexivity. reflexivity. }
+        rewrite Mt.
         change (astep (abs (mkCfg m ths)) i (abs (mkCfg m (set_nth i (mkThread MNone (rd f (m f) (loc L t)) k) ths)))).
         rewrite AC'.
         pose proof (AStep V L rd wr (abs (mkCfg m ths)) i t (ARead f) k) as Q.
